@@ -10,7 +10,10 @@ def hx(b):
     if b is None:
         return "NULL"
     if isinstance(b, str):
-        b = b.encode("latin-1")
+        try:
+            b = b.encode("latin-1")
+        except UnicodeEncodeError:
+            return "u:" + b.encode("utf-8").hex()      # text beyond latin-1: the C side gets the UTF-8 bytes, the Java side the decoded string
     return "s:" + b.hex()
 
 
